@@ -751,6 +751,30 @@ pub fn run(case: &Case, ctx: &mut Ctx) -> R {
                 let tid = hash(&e, &tl, &t)?;
                 ensure!(tid != w.ids[i], "C08/hash_operation/field-not-bound", "{what}: changing {:?} does not change the id", field);
                 ensure!(!w.ids.contains(&tid), "C08/hash_operation/collision", "{what}: perturbed op collides with a pool id");
+                // predecessor and salt are two different fields of the tuple, also when one of them is the all-zero
+                // "none" value: (pred = P, salt = 0) and (pred = 0, salt = P) are different operations
+                let zero = BytesN::from_array(&e, &[0u8; 32]);
+                let base = &w.ops[i];
+                let pval = if base.predecessor != zero {
+                    base.predecessor.clone()
+                } else if base.salt != zero {
+                    base.salt.clone()
+                } else {
+                    BytesN::from_array(&e, &[7u8; 32])
+                };
+                let mut a = base.clone();
+                a.predecessor = pval.clone();
+                a.salt = zero.clone();
+                let mut b = base.clone();
+                b.predecessor = zero.clone();
+                b.salt = pval.clone();
+                ensure!(hash(&e, &tl, &a)? != hash(&e, &tl, &b)?, "C08/hash_operation/predecessor-salt-not-distinguished", "{what}: (predecessor = P, salt = 0) and (predecessor = 0, salt = P) hash to the same id");
+                if base.predecessor != base.salt {
+                    let mut sw = base.clone();
+                    sw.predecessor = base.salt.clone();
+                    sw.salt = base.predecessor.clone();
+                    ensure!(hash(&e, &tl, &sw)? != w.ids[i], "C08/hash_operation/predecessor-salt-not-distinguished", "{what}: exchanging predecessor and salt does not change the id");
+                }
                 ctx.class("hash_probe");
             }
             Step::Fail { on } => {
